@@ -29,7 +29,8 @@ _ADAPT_HEADER = "        self.headers['Content-Type'] = get_content_type(mimetyp
 _INIT_SUPER = ("        headers = kwargs.pop('headers', None)\n"
                "        mimetype = kwargs.pop('mimetype', DEFAULT_MIME)\n"
                "        content_type = kwargs.pop('content_type', None)\n"
-               "        super(HTTPException, self).__init__(response=self.to_text(),\n"
+               "        body = self._encode(self.to_text())\n"
+               "        super(HTTPException, self).__init__(response=body,\n"
                "                                            status=self.code,\n"
                "                                            headers=headers,\n"
                "                                            mimetype=DEFAULT_MIME,\n"
@@ -104,8 +105,8 @@ T('d_t_adapt_get_none', ['C09'],
   (E, _ADAPT_LOOKUP, "        fmt_name = MIME_SUPPORT_MAP.get(mimetype)\n        if fmt_name is None:\n            fmt_name, mimetype = 'text', 'text/plain'\n"))
 T('d_t_adapt_named_header_keywords', ['C09'],
   (E, _ADAPT_HEADER, "        content_type = get_content_type(mimetype=mimetype, charset=self.charset)\n        self.headers['Content-Type'] = content_type\n"),
-  (E, "        _method = getattr(self, 'to_' + fmt_name)\n        self.data = _method()\n",
-      "        serialiser_name = 'to_%s' % fmt_name\n        self.data = getattr(self, serialiser_name)()\n"))
+  (E, "        _method = getattr(self, 'to_' + fmt_name)\n        self.data = self._encode(_method())\n",
+      "        serialiser_name = 'to_%s' % fmt_name\n        self.data = self._encode(getattr(self, serialiser_name)())\n"))
 T('d_t_init_splatted_kwargs', ['C09'],
   (E, _INIT_SUPER, "        extra = {'headers': kwargs.pop('headers', None)}\n"
                    "        mimetype = kwargs.pop('mimetype', DEFAULT_MIME)\n"
@@ -114,12 +115,12 @@ T('d_t_init_splatted_kwargs', ['C09'],
                    "        status = self.code\n"
                    "        super(HTTPException, self).__init__(response=body, status=status, mimetype=DEFAULT_MIME, **extra)\n"))
 T('d_t_init_positional_base_call', ['C09'],
-  (E, "        super(HTTPException, self).__init__(response=self.to_text(),\n"
+  (E, "        super(HTTPException, self).__init__(response=body,\n"
       "                                            status=self.code,\n"
       "                                            headers=headers,\n"
       "                                            mimetype=DEFAULT_MIME,\n"
       "                                            content_type=content_type)\n",
-      "        BaseResponse.__init__(self, self.to_text(), self.code, headers, DEFAULT_MIME, content_type)\n"))
+      "        BaseResponse.__init__(self, body, self.code, headers, DEFAULT_MIME, content_type)\n"))
 T('d_t_negotiate_helper', ['C09'], (E, _AFTER_DEFAULT_MIME, _AFTER_DEFAULT_MIME + _NEGOTIATE),
   (E, _RENDER_ERROR, "        _error.adapt(pick_error_mimetype(request, MIME_SUPPORT_MAP))\n        return _error\n\n    def uncaught_to_response"),
   (A, "                     ContextualErrorHandler)", "                     ContextualErrorHandler,\n                     pick_error_mimetype)"),
@@ -265,8 +266,8 @@ B('d2_b_override_after_base_init', ['C09'], 'R09.a',
 B('d2_b_code_written_twice', ['C09'], 'R09.a',
   (E, _INIT_SUPER, "        if not self.is_breaking:\n            self.code = type(self).code\n" + _INIT_SUPER))
 B('d2_b_body_rendered_before_fields', ['C09'], 'R09.a',
-  (E, _INIT_HEAD, _INIT_DEF + "        body = self.to_text()\n" + _INIT_DETAIL),
-  (E, "super(HTTPException, self).__init__(response=self.to_text(),", "super(HTTPException, self).__init__(response=body,"))
+  (E, "        body = self._encode(self.to_text())\n        super(HTTPException", "        super(HTTPException"),
+  (E, _INIT_HEAD, _INIT_DEF + "        body = self._encode(self.to_text())\n" + _INIT_DETAIL))
 B('d2_b_detail_set_after_adapt', ['C09'], 'R09.a',
   (E, _INIT_HEAD, _INIT_DEF),
   (E, _INIT_ADAPT, "        if mimetype != DEFAULT_MIME:\n            self.adapt(mimetype)\n" + _INIT_DETAIL))
@@ -284,8 +285,7 @@ T('d2_t_code_local_shared', ['C09'],
 T('d2_t_detail_set_conditionally', ['C09'],
   (E, _INIT_DETAIL, "        if detail:\n            self.detail = detail\n"))
 T('d2_t_body_local_after_fields', ['C09'],
-  (E, _INIT_SUPER, _INIT_SUPER.replace("response=self.to_text(),", "response=body,").replace(
-      "        super(HTTPException", "        body = self.to_text()\n        super(HTTPException")))
+  (E, _INIT_SUPER, _INIT_SUPER.replace("body", "plain_text")))
 
 # ------------------------------------------------------------------ third pass: generated templates, pair lookups, delegated negotiation
 # a template folded from literals and module constants is a constant template; the lookup of the (format, mimetype) pair
